@@ -53,6 +53,42 @@ theorem C19_grpcweb (h : Hdrs) :
   cases h1 : headerHasToken h.connection tokUpgrade <;> cases h2 : headerHasToken h.upgrade tokWebsocket <;>
     cases h3 : headerHasToken h.protocol tokGrpcWS <;> cases h4 : isGRPCWebContentType (first h.contentType) <;> simp
 
+/-- **Tokens are ASCII.**  In the model a candidate equals a dispatch keyword (`ascii.EqualFold`, used for
+    `upgrade`, `websocket`, `grpc-websockets` and the `application/grpc-web` prefix) iff the two are equal byte
+    for byte up to ASCII case — `A–Z` ↔ `a–z` and nothing else. -/
+theorem C19_tokens_ascii_only (cand kw : Bytes) : equalFold cand kw = true ↔ AsciiCaseEqs cand kw :=
+  equalFold_iff cand kw
+
+/-- … so ANY byte ≥ 0x80 in the candidate makes it unequal to an (ASCII) keyword: no UTF-8 encoded look-alike
+    (U+017F ſ, U+212A K, U+0130 İ, U+0131 ı, fullwidth letters) and no raw high byte can name a token. -/
+theorem C19_high_byte_never_matches (cand kw : Bytes) (hkw : ∀ b ∈ kw, b.toNat < 128)
+    (hc : ∃ c ∈ cand, 128 ≤ c.toNat) : equalFold cand kw = false := by
+  cases h : equalFold cand kw with
+  | false => rfl
+  | true =>
+    obtain ⟨c, hm, hge⟩ := hc
+    have := asciiCaseEqs_high cand kw hkw ((equalFold_iff cand kw).1 h) c hm
+    omega
+
+/-- the dispatch keywords are ASCII (hypothesis of the previous theorem) -/
+theorem C19_keywords_ascii :
+    (∀ b ∈ tokUpgrade, b.toNat < 128) ∧ (∀ b ∈ tokWebsocket, b.toNat < 128) ∧
+    (∀ b ∈ tokGrpcWS, b.toNat < 128) ∧ (∀ b ∈ grpcWebBase, b.toNat < 128) := by decide
+
+/-- Seeded variant C19-m7 (`strings.EqualFold`: Unicode simple folding), kernel-checked negative witness on the
+    bytes of `webſocket` (`77 65 62 c5 bf 6f 63 6b 65 74`) and `grpc-webſocKets`: Unicode folding accepts them as the
+    `websocket` / `grpc-websockets` tokens; the model does not, and `Connection: Upgrade` + `Upgrade: webſocket`
+    is a plain HTTP request. -/
+theorem C19_unicode_fold_fails :
+    let ws : Bytes := [119,101,98,0xc5,0xbf,111,99,107,101,116]
+    let gw : Bytes := [103,114,112,99,45,119,101,98,0xc5,0xbf,111,99,0xe2,0x84,0xaa,101,116,115]
+    equalFoldUnicode ws tokWebsocket = true ∧ equalFold ws tokWebsocket = false ∧
+    equalFoldUnicode gw tokGrpcWS = true ∧ equalFold gw tokGrpcWS = false ∧
+    headerHasToken [ws] tokWebsocket = false ∧
+    dispatch { connection := [tokUpgrade], upgrade := [ws] } = .http ∧
+    dispatch { connection := [tokUpgrade], upgrade := [tokWebsocket], protocol := [gw] } = .ws := by
+  decide
+
 /-- **The parameters do not have to be well-formed.**  If the media type (what precedes the parameters)
     begins with `application/grpc-web` in any case — the type itself, `+proto`, any suffix — then the request
     is gRPC-Web WHATEVER byte string follows it: optional whitespace, `; charset=utf-8`, an attribute-only
@@ -206,4 +242,15 @@ theorem C19_facts_metadata :
     GB.Generated.c19MetadataParam = defaultParam.map UInt8.toNat
     ∧ GB.Generated.c19KeyRanges = [97, 122, 65, 90, 48, 57, 95, 45, 46]
     ∧ GB.Generated.c19ValueRange = [("<", 0x20), (">", 0x7E)] := by
+  decide
+
+/-- Every case-insensitive comparison of the dispatch / content-type code is `ascii.EqualFold` of
+    `internal/ascii` (exactly the two calls the model mirrors), and neither bridge.go nor webbridge/*.go calls
+    `strings.EqualFold` / `strings.ToLower` / `strings.ToUpper` / `strings.ToTitle` / `bytes.EqualFold` / … or
+    anything of package `unicode` / `golang.org/x/text/cases`. -/
+theorem C19_facts_ascii_fold_only :
+    GB.Generated.c19FoldCalls =
+      ["bridge.go:headerHasToken:ascii.EqualFold", "bridge.go:isGRPCWebContentType:ascii.EqualFold"]
+    ∧ GB.Generated.c19UnicodeCaseCalls = []
+    ∧ GB.Generated.c19AsciiImport = "github.com/renbou/grpcbridge/internal/ascii" := by
   decide
